@@ -44,7 +44,10 @@ struct C19 : Driver {
         FileSpec f; f.name = std::string(1, (char)('a' + i)) + (rng.below(2) ? ".bz2" : ".txt");
         Bytes plain = small_plain(rng, rng.below(3) ? 3000 : 150000);
         if (rng.below(2)) f.data = bz::libbz2_encode(plain, 1 + (int)rng.below(9));
-        else { f.data = plain; if (f.data.size() >= 4 && f.data[0] == 'B' && f.data[1] == 'Z' && f.data[2] == 'h') f.data[0] = 'C'; }
+        else {
+          f.data = plain; if (f.data.size() >= 4 && f.data[0] == 'B' && f.data[1] == 'Z' && f.data[2] == 'h') f.data[0] = 'C';
+          if (f.data.size() > 8 && rng.below(4) == 0) { f.visible = (int64_t)(4 + rng.below(f.data.size() - 4)); f.grow_at = (int)rng.below(5); }    // the copied file is still being appended to while lbzip2 reads it: the whole of it is the input (seeded change C19-6)
+        }
         c.files.push_back(f);
         r.argv.push_back(f.name);
       }
@@ -472,6 +475,7 @@ struct C17 : Driver {
     bool many = om == 0 && !force && !keep && rng.below(12) == 0;      // a long list of skipped (hard-linked / odd) operands under a small descriptor limit, then ordinary ones: whatever is opened for a skipped operand must be closed again (seeded change C17-4)
     if (many) { nop = 12 + (int)rng.below(24); r.nofile = 8 + (int)rng.below(6); }
     random_procenv(rng, r);
+    if (rng.below(4) == 0) { static const unsigned um[] = {0, 077, 0200, 0277, 0600, 0777, 027, 0222}; r.umask = um[rng.below(8)]; }     // the inherited umask filters open(O_CREAT) but not fchmod(): the output must get the input's permission bits whatever it is (seeded change C17-5)
     c.p["nop"] = nop;
     for (int i = 0; i < nop; i++) {
       int kind = (int)rng.below(12); kind = kind < 4 ? OK_REG : kind - 3;   // REG over-weighted; 1..8 -> other kinds
